@@ -165,6 +165,98 @@ pub fn run(tier: Tier) -> i32 {
             }
         }
     });
+    // the same table with the arguments taken from the document (fields and the current node) instead of
+    // literals: a repeated field / `@` hands the *same node* to two parameters of different declared types
+    {
+        let fields: Vec<(&str, Value)> = vec![
+            ("n", json!(null)), ("t", json!(true)), ("num", json!(1)), ("s", json!("a")), ("ea", json!([])), ("an", json!([1, 2])),
+            ("ss", json!(["a", "b"])), ("mx", json!([1, "a"])), ("o", json!({"a": 1})), ("nn", json!([1, null])),
+        ];
+        let fd: Value = Value::Object(fields.iter().map(|(k, v)| (k.to_string(), v.clone())).collect());
+        let mut work2: Vec<(String, usize)> = Vec::new();
+        for name in names() {
+            let (declared, variadic) = sigs.iter().find(|s| s.name == name).map(|s| (s.params.len(), s.variadic.is_some())).unwrap_or((1, false));
+            let maxc = if variadic { 3 } else { (declared + 1).min(3) };
+            for c in 1..=maxc {
+                work2.push((name.clone(), c));
+            }
+        }
+        let fd2 = fd.clone();
+        let s2 = par_sweep(work2, |(name, argc), st| {
+            for t in tuples(fields.len(), *argc) {
+                let args: Vec<&str> = t.iter().map(|&i| fields[i].0).collect();
+                check_call_expr(&format!("{}({})", name, args.join(", ")), &fd2, "decision-table-document-arguments", st);
+            }
+            // every argument is the current node
+            for (_, v) in &fields {
+                let args = vec!["@"; *argc];
+                check_call_expr(&format!("{}({})", name, args.join(", ")), v, "decision-table-current-node", st);
+                if *argc == 2 {
+                    check_call_expr(&format!("{}(@, &@)", name), v, "decision-table-current-node", st);
+                    check_call_expr(&format!("{}(&@, @)", name), v, "decision-table-current-node", st);
+                }
+            }
+        });
+        st = st.merge(s2);
+    }
+    // the same calls as hand-built expressions: Expression::new(label, parse(src), runtime) with a label that is
+    // not the source text (empty, shorter than the node offsets, non-ASCII); outcome as through compile()
+    {
+        let cl = classes(false);
+        let mut srcs: Vec<String> = Vec::new();
+        for name in names() {
+            srcs.push(format!("{}()", name));
+            for a in &cl {
+                srcs.push(format!("{}({})", name, a.1));
+                srcs.push(format!("not_null(a, {}({}))", name, a.1));
+                for b in [&cl[2], &cl[3], &cl[5], &cl[9]] {
+                    srcs.push(format!("{}({}, {})", name, a.1, b.1));
+                }
+            }
+        }
+        let dd = d.clone();
+        let s3 = par_sweep(srcs.chunks(32).map(|c| c.to_vec()).collect(), |chunk: &Vec<String>, st| {
+            for src in chunk {
+                let ast = match guarded(|| jmespath::parse(src)) {
+                    Ok(Ok(a)) => a,
+                    _ => continue,
+                };
+                let p = match rparse::parse(src) {
+                    Ok(p) => p,
+                    Err(_) => continue,
+                };
+                let strict = crate::reval::Eval::builtin();
+                let r = strict.search(&p.tree, &dd);
+                if crate::oracle::unspecified(&r) {
+                    continue;
+                }
+                let via_compile = match guarded(|| jmespath::compile(src)) {
+                    Ok(Ok(e)) => crate::oracle::run_impl(&e, &value_to_var(&dd)).sem(),
+                    _ => continue,
+                };
+                for label in ["", "x", "\u{20ac}\u{20ac}\u{20ac}\u{20ac}\u{20ac}\u{20ac}\u{20ac}\u{20ac}\u{20ac}\u{20ac}\u{20ac}\u{20ac}", "prix-en-\u{20ac}-par-unit\u{e9}-hors-taxe-\u{20ac}\u{20ac}"] {
+                    st.states += 1;
+                    st.transitions += 1;
+                    st.evaluations += 1;
+                    st.validated += 1;
+                    let e = jmespath::Expression::new(label, ast.clone(), &jmespath::DEFAULT_RUNTIME);
+                    let got = crate::oracle::run_impl(&e, &value_to_var(&dd)).sem();
+                    if got != via_compile {
+                        st.violate(Violation {
+                            key: "C06/hand-built-expression-differs".into(),
+                            check: "expression-new".into(),
+                            case: json!({"kind": "expression-new", "expression": src, "label": label, "document": dd}),
+                            expected: via_compile.clone(),
+                            actual: got,
+                        });
+                    } else {
+                        st.outcome("hand-built expression agrees");
+                    }
+                }
+            }
+        });
+        st = st.merge(s3);
+    }
     // by-functions x key type vectors
     let keyvals = [json!(1), json!("s"), json!(null), json!(true), json!([1]), json!({}), json!(2.5), json!("")];
     let mut docs: Vec<Value> = vec![json!([])];
@@ -242,6 +334,16 @@ pub fn run(tier: Tier) -> i32 {
 }
 
 pub fn replay(case: &Value) -> Option<(String, bool)> {
+    if case["kind"] == json!("expression-new") {
+        let src = case["expression"].as_str()?;
+        let label = case["label"].as_str()?;
+        let dd = &case["document"];
+        let ast = jmespath::parse(src).ok()?;
+        let via_compile = crate::oracle::run_impl(&jmespath::compile(src).ok()?, &value_to_var(dd)).sem();
+        let e = jmespath::Expression::new(label, ast, &jmespath::DEFAULT_RUNTIME);
+        let got = crate::oracle::run_impl(&e, &value_to_var(dd)).sem();
+        return Some((format!("through compile(): {} ; through Expression::new({:?}, ..): {}", via_compile, label, got), got != via_compile));
+    }
     let mut st = Stats::default();
     check_call_expr(case["expression"].as_str()?, &case["document"], "replay", &mut st);
     Some(match st.violations.first() {
